@@ -67,6 +67,9 @@ type C02Scenario struct {
 	Files     []C02File           `json:"files"`    // file i is data/<dir>/f<i>.log
 	Commands  []string            `json:"commands"` // globs or paths, relative to data/
 	KeepEvery int                 `json:"keep_every"` // grep: line n is selected iff n % KeepEvery == 0
+	Before    int                 `json:"before,omitempty"` // grep context options (exercise the context filter and its early abort under back-pressure)
+	After     int                 `json:"after,omitempty"`
+	Max       int                 `json:"max,omitempty"`
 	Stalls    []StallSpec         `json:"stalls"`
 	Net       verifsimnet.Profile `json:"net"`
 	// HoldCommandsMs holds every command goroutine at its start (used only by
@@ -98,7 +101,41 @@ func (sc *C02Scenario) fileContent(i int) []byte {
 	return b.Bytes()
 }
 
+// wanted returns the line numbers of file i that must be delivered.
+func (sc *C02Scenario) wanted(i int) []int {
+	n := sc.Files[i].Lines
+	if sc.Kind != "grep" || (sc.Before == 0 && sc.After == 0 && sc.Max == 0) {
+		var out []int
+		for k := 1; k <= n; k++ {
+			if sc.keep(k) {
+				out = append(out, k)
+			}
+		}
+		return out
+	}
+	sel := make([]bool, n)
+	for k := 1; k <= n; k++ {
+		sel[k-1] = sc.keep(k)
+	}
+	var out []int
+	for _, idx := range refGrep(sel, sc.Before, sc.After, sc.Max) {
+		out = append(out, idx+1)
+	}
+	return out
+}
+
 func (sc *C02Scenario) selectedTotal() int {
+	if sc.Kind == "grep" && (sc.Before != 0 || sc.After != 0 || sc.Max != 0) {
+		t := 0
+		for i := range sc.Files {
+			t += len(sc.wanted(i))
+		}
+		return t
+	}
+	return sc.selectedTotalPlain()
+}
+
+func (sc *C02Scenario) selectedTotalPlain() int {
 	t := 0
 	for i := range sc.Files {
 		for n := 1; n <= sc.Files[i].Lines; n++ {
@@ -123,6 +160,9 @@ func c02Gen(r *Rand, tier string, i int) Scenario {
 	sc.Kind = PickOf(r, "cat", "cat", "grep")
 	sc.Plain = r.Bool(0.7)
 	sc.KeepEvery = PickOf(r, 1, 2, 3, 10)
+	if sc.Kind == "grep" && r.Bool(0.4) {
+		sc.Before, sc.After, sc.Max = PickOf(r, 0, 0, 1, 3), PickOf(r, 0, 0, 1, 2), PickOf(r, 0, 0, 1, 5, 40)
+	}
 	sc.Cfg.MaxCats = PickOf(r, 1, 2, 2, 3)
 	// commands: 1..4, each one file or a glob over 1..4 files
 	ncmd := PickOf(r, 1, 1, 1, 2, 3, 4)
@@ -220,6 +260,7 @@ func c02Run(t *testing.T, s Scenario, src verifsim.DecisionSource, keep bool) *R
 		spec := ReadSpec{Kind: sc.Kind, Transport: sc.Transport, Plain: sc.Plain, NoColor: true, Files: sc.Commands}
 		if sc.Kind == "grep" {
 			spec.Regex = ":K:"
+			spec.Before, spec.After, spec.Max = sc.Before, sc.After, sc.Max
 		}
 		keyPath := ""
 		if sc.Transport == "ssh" {
@@ -303,12 +344,7 @@ func c02Oracle(sc *C02Scenario, stdout []byte) (string, string) {
 	}
 	var problems []string
 	for i, f := range sc.Files {
-		var want []int
-		for n := 1; n <= f.Lines; n++ {
-			if sc.keep(n) {
-				want = append(want, n)
-			}
-		}
+		want := sc.wanted(i)
 		g := got[i]
 		if len(g) == len(want) {
 			same := true
@@ -363,14 +399,14 @@ func c02Shape(s Scenario) string {
 	for _, sp := range sc.Stalls {
 		st = append(st, fmt.Sprintf("%s@%d+%dms", sp.Name, sp.From, sp.DurMs))
 	}
-	return fmt.Sprintf("%s/%s/plain=%v/cats=%d/cmds=%d/files=%s/stalls=%s", sc.Transport, sc.Kind, sc.Plain, sc.Cfg.MaxCats,
-		len(sc.Commands), strings.Join(sz, ","), strings.Join(st, ","))
+	return fmt.Sprintf("%s/%s/plain=%v/cats=%d/cmds=%d/files=%s/stalls=%s/ctx%d,%d,%d", sc.Transport, sc.Kind, sc.Plain, sc.Cfg.MaxCats,
+		len(sc.Commands), strings.Join(sz, ","), strings.Join(st, ","), sc.Before, sc.After, sc.Max)
 }
 
 func c02Sample(s Scenario) any {
 	sc := s.(*C02Scenario)
 	return map[string]any{"transport": sc.Transport, "kind": sc.Kind, "plain": sc.Plain, "max_cats": sc.Cfg.MaxCats,
-		"files": sc.Files, "commands": sc.Commands, "keep_every": sc.KeepEvery, "stalls": sc.Stalls, "net": sc.Net, "sched": sc.Sched}
+		"files": sc.Files, "commands": sc.Commands, "keep_every": sc.KeepEvery, "before": sc.Before, "after": sc.After, "max": sc.Max, "stalls": sc.Stalls, "net": sc.Net, "sched": sc.Sched}
 }
 
 func c02Clone(sc *C02Scenario) *C02Scenario {
